@@ -17,7 +17,8 @@ package main
 // then claims (far) more elements or bytes than the payload holds.  Such a frame has a valid
 // magic, length and checksum.  Oracle: no panic, and
 //
-//	allocated(hostile) <= 4 * allocated(base of the same type, shape and length) + c0
+//	allocated(hostile) <= 4 * max(allocated(base it was derived from),
+//	                              L * densest well-formed payload of that type, per byte) + c0
 //	allocated(hostile) <= 16 * MAX_PAYLOAD_LEN
 //
 // for the total and for the large-object bytes, where c0 = 64 KiB + 4 * (bytes allocated
@@ -201,6 +202,15 @@ func shapesOf(cmd string) []ashape {
 			{name: "blob", maxL: 1 << 20, build: func(g *gen, n int) mt.Message {
 				return mk(g, []*ctypes.Transaction{lightTx(g, 1, filler(3, n))}, nil)
 			}},
+			{name: "hsigs", maxL: 1 << 20, build: func(g *gen, n int) mt.Message {
+				b := &ctypes.Block{Header: g.header(0), Transactions: []*ctypes.Transaction{lightTx(g, 1, []byte{0x51})}}
+				b.Header.SigData = make([][]byte, n)
+				for i := range b.Header.SigData {
+					b.Header.SigData[i] = []byte{7}
+				}
+				b.RebuildMerkleRoot()
+				return &mt.Block{Blk: b, MerkleRoot: g.hash()}
+			}},
 			{name: "ccsigs", maxL: 1 << 20, build: func(g *gen, n int) mt.Message {
 				cc := &ctypes.CrossChainMsg{Version: 1, Height: 9, StatesRoot: g.hash(), SigData: make([][]byte, n)}
 				for i := range cc.SigData {
@@ -280,6 +290,7 @@ type abase struct {
 	payload []byte
 	valid   int   // pad shape: length of the body in front of the trailing bytes
 	hot     []int // offsets of the fields that size the payload
+	per     int   // payload bytes per element (list shapes) / per blob byte (1)
 	m       ameas // what decoding it allocates (maximum of the calibration runs)
 }
 
@@ -323,7 +334,7 @@ func buildBase(sp *spec, sh ashape, L int, seed *vf.RNG) (b abase, ok bool) {
 			n += 2
 		}
 	}
-	b.n = n
+	b.n, b.per = n, per
 	b.payload = mk(n)
 	next := mk(n + 1)
 	d := firstDiffOff(b.payload, next)
@@ -433,7 +444,20 @@ func (c *child) allocMutants(b *abase, full bool, rng *vf.RNG) (hotMs, ms []amut
 			hot = hot || h == o
 		}
 		var l []amut
-		for _, v := range claims(L, o, full || (hot && L <= vf.N(256<<10, 4<<20))) {
+		vs := claims(L, o, full || (hot && L <= vf.N(256<<10, 4<<20)))
+		if hot && b.per > 0 {
+			// around what the payload can really hold
+			for _, v := range []uint64{uint64(b.n + 1), uint64(2 * b.n), uint64(L/b.per + 1), uint64(8 * b.n)} {
+				dup := false
+				for _, w := range vs {
+					dup = dup || w == v
+				}
+				if !dup {
+					vs = append(vs, v)
+				}
+			}
+		}
+		for _, v := range vs {
 			if o+2 <= L && v <= 0xffff && v > 64 && L <= 64<<10 {
 				l = append(l, amut{o, "u16", v})
 			}
@@ -466,6 +490,7 @@ type calibRow struct {
 	Total   uint64  `json:"allocated"`
 	Large   uint64  `json:"allocated_large"`
 	Ratio   float64 `json:"allocated_per_byte"`
+	Dens    float64 `json:"densest_wellformed_of_type_per_byte"`
 	Mutants int     `json:"hostile_cases"`
 	MaxHost uint64  `json:"max_hostile_allocated"`
 }
@@ -499,6 +524,40 @@ func (c *child) allocBatch(rng *vf.RNG) {
 	keyCost := measure(func() { keypair.DeserializePublicKey(raw) }).total
 	c0 := uint64(allocC0) + 4*keyCost
 	ceiling := uint64(allocCeilingK) * pc.MAX_PAYLOAD_LEN
+
+	// -- pass 1: the densest well-formed payloads of this type.  A hostile count can make a
+	// decoder read the rest of a payload as another (denser) list of the same type — e.g. the
+	// signature list of a block's cross-chain message read as the signature list of its
+	// header — so the reference is the maximum over all well-formed shapes, per payload byte.
+	var densT, densL float64
+	for si, sh := range shapesOf(sp.cmd) {
+		for _, L := range []int{48 << 10, 512 << 10} {
+			if sh.maxL > 0 && L > sh.maxL {
+				continue
+			}
+			b, ok := buildBase(sp, sh, L, rng.Sub(uint64(5000+si)))
+			if !ok || len(b.payload) > pc.MAX_PAYLOAD_LEN {
+				continue
+			}
+			fr := frame(magic, sp.cmd, b.payload)
+			if !c.beginAlloc(fmt.Sprintf("alloc-density:%s/n=%d/L=%d", sh.name, b.n, len(b.payload)), sp.cmd, b.payload) {
+				continue
+			}
+			var err error
+			var p interface{}
+			m := measure(func() { _, err, p = c.decodeOnce(fr) })
+			if p != nil || err != nil {
+				continue // reported by pass 2
+			}
+			c.count("alloc_density_probe")
+			if r := float64(m.total) / float64(len(b.payload)); r > densT {
+				densT = r
+			}
+			if r := float64(m.large) / float64(len(b.payload)); r > densL {
+				densL = r
+			}
+		}
+	}
 
 	for si, sh := range shapesOf(sp.cmd) {
 		for li, L := range allocLadder() {
@@ -562,8 +621,15 @@ func (c *child) allocBatch(rng *vf.RNG) {
 			c.count("alloc_base:" + sp.cmd)
 			c.count("alloc_base_shape:" + sh.name)
 			c.count(sizeClass("alloc_base_size:", L))
-			row := calibRow{Cmd: sp.cmd, Shape: sh.name, N: b.n, L: L, Total: b.m.total, Large: b.m.large, Ratio: float64(b.m.total) / float64(L)}
-			limT, limL := allocHeadroom*b.m.total+c0, allocHeadroom*b.m.large+c0
+			row := calibRow{Cmd: sp.cmd, Shape: sh.name, N: b.n, L: L, Total: b.m.total, Large: b.m.large, Ratio: float64(b.m.total) / float64(L), Dens: densT}
+			refT, refL := b.m.total, b.m.large
+			if d := uint64(densT * float64(L)); d > refT {
+				refT = d
+			}
+			if d := uint64(densL * float64(L)); d > refL {
+				refL = d
+			}
+			limT, limL := allocHeadroom*refT+c0, allocHeadroom*refL+c0
 			// -- hostile claims
 			// every case costs about what the base costs (the decoder walks the elements that are
 			// present before it finds out): the positions that do not size the base are sampled
@@ -642,10 +708,10 @@ func (c *child) allocBatch(rng *vf.RNG) {
 					if cl := over(m); cl != "" {
 						c.count("alloc_excess")
 						c.violation("alloc:volume:"+cl+":"+sp.cmd,
-							fmt.Sprintf("decoding a %d-byte %s payload whose field at offset %d claims %d allocated %d bytes (%d in large objects); the well-formed %s payload of the same length allocates %d (%d); allowance %d×that+%d, ceiling %d",
-								len(q), sp.cmd, mu.off, mu.val, m.total, m.large, sh.name, b.m.total, b.m.large, allocHeadroom, c0, ceiling),
+							fmt.Sprintf("decoding a %d-byte %s payload whose field at offset %d claims %d allocated %d bytes (%d in large objects); the well-formed %s payload of the same length allocates %d (%d), the densest well-formed %s payloads %.1f (%.1f) per byte; allowance %d×max(those)+%d = %d (%d), ceiling %d",
+								len(q), sp.cmd, mu.off, mu.val, m.total, m.large, sh.name, b.m.total, b.m.large, sp.cmd, densT, densL, allocHeadroom, c0, limT, limL, ceiling),
 							map[string]interface{}{"allocated": m.total, "allocated_large": m.large, "base_allocated": b.m.total, "base_allocated_large": b.m.large,
-								"allowance_total": limT, "allowance_large": limL, "ceiling": ceiling, "mutation": mu.String(), "base": label, "rejected": err != nil,
+								"allowance_total": limT, "allowance_large": limL, "densest_wellformed_per_byte": densT, "densest_wellformed_large_per_byte": densL, "ceiling": ceiling, "mutation": mu.String(), "base": label, "rejected": err != nil,
 								"payload_sha256": fmt.Sprintf("%x", sha256.Sum256(q)), "payload_tail_hex": vf.Hex(q[len(q)-min(len(q), 128):])})
 						if m.total > 256<<20 {
 							c.costly()
